@@ -134,6 +134,12 @@ func NewExec(w *World) *Exec {
 	}
 	if len(ctors) > 0 {
 		d.Raw("dt:Event", "(declare-datatypes ((Event 0)) (("+strings.Join(ctors, " ")+")))")
+		// the effect log: built-in ghost variables log / loglen
+		x.ghostVars["log"] = &GhostVar{Name: "log", Sort: ArraySort("Int", "Event")}
+		x.ghostVars["loglen"] = &GhostVar{Name: "loglen", Sort: "Int"}
+	}
+	for _, name := range sortedKeys(x.ghostVars) {
+		x.heapSorts["G$"+name] = x.ghostVars[name].Sort
 	}
 	for _, name := range sortedKeys(x.ghostFuns) {
 		gf := x.ghostFuns[name]
